@@ -123,13 +123,20 @@ func c04OrAcrossTypes(c *mon.Ctx, r *mon.Rng) {
 		{Name: "@size", Root: model.Str("XL").With(wide())},
 		{Name: "@obj", Root: model.Obj(model.P("a", model.Int("1").With(wide())), model.P("b", model.Bool(false).With(wide())))},
 	}}
-	switch r.Intn(3) {
-	case 0:
-		s.Root = model.Obj(model.P("id", target), model.P("s", model.Ref("@size")))
-	case 1:
-		s.Root = model.Obj(model.P("o", model.Ref("@obj")), model.P("s", model.Ref("@size")), model.P("id", target))
-	default:
-		s.Root = model.Arr(model.Ref("@obj"), target)
+	if r.Bool() {
+		// the other way round: the offending example stands in an ADDED TYPE, the root's own
+		// rule-sets are the wide ones
+		s.Types[0].Root = target
+		s.Root = model.Obj(model.P("id", model.Int("5").With(wide())), model.P("s", model.Ref("@size")), model.P("o", model.Ref("@obj")))
+	} else {
+		switch r.Intn(3) {
+		case 0:
+			s.Root = model.Obj(model.P("id", target), model.P("s", model.Ref("@size")))
+		case 1:
+			s.Root = model.Obj(model.P("o", model.Ref("@obj")), model.P("s", model.Ref("@size")), model.P("id", target))
+		default:
+			s.Root = model.Arr(model.Ref("@obj"), target)
+		}
 	}
 	if r.Bool() {
 		s.Types[0], s.Types[1] = s.Types[1], s.Types[0]
